@@ -350,7 +350,9 @@ HEAD_OPEN = '<!DOCTYPE html>\n<html>\n  <head>\n    <meta charset="utf-8"/>'
 
 def head_after_charset(html: str) -> str:
     assert html.startswith(HEAD_OPEN), html[:80]
-    j = html.index("\n  </head>\n", len(HEAD_OPEN) - 1)
+    # the real end of <head>: the line that is followed by <body at the same depth (hostile
+    # content nested in head or body is indented deeper, so it cannot produce this text)
+    j = html.rindex("\n  </head>\n  <body")
     body = html[len(HEAD_OPEN):j]
     return body[1:] if body.startswith("\n") else body
 
@@ -485,6 +487,11 @@ def run(ctx: Ctx) -> None:
 
     # ---- B/C 1: the serialised element --------------------------------------------------------
     ser_cases = []
+    cdir = os.path.join(VERIF, "corpus", "C13")
+    for fn in sorted(os.listdir(cdir)) if os.path.isdir(cdir) else []:
+        if fn.endswith(".json"):
+            with open(os.path.join(cdir, fn), encoding="utf-8") as f:
+                ser_cases += [c for c in json.load(f)["cases"] if c.get("kind") == "serialise"]
     for v in case_variants("script"):
         for t in CLOSE_TAILS:
             f = SIMPLE_FIELDS[(len(ser_cases)) % len(SIMPLE_FIELDS)]
@@ -728,6 +735,14 @@ def run(ctx: Ctx) -> None:
         "HTMLTextDocument and HTMLDocument; the markup itself is identical -- counted separately, not a violation")
 
 
+def render_once(case):
+    doc, _ = make_doc(case)
+    extra = [build_dep(d) for d in case["extra"]]
+    return safe_call(lambda: HTMLTextDocument(doc, deps=list(extra) if extra else None,
+                                              deps_replace_pattern=case["ph"])
+                     .render(lib_prefix=case["lib_prefix"], include_version=case["include_version"])["html"])
+
+
 def place(tree, objs, slots):
     """insert the objects as extra children at pseudo-random positions of a built Tag tree"""
     tags_ = []
@@ -812,6 +827,10 @@ def replay(ctx: Ctx, path: str) -> None:
         ctx.count(case, True, "replayed document")
         if out != ("ok", want):
             ctx.violation(W_EXTRACT, case, {"impl_output": out, "expected": want, "document": doc})
+    elif kind == "render":
+        print("render() ->", render_once(case))
+        ctx.count(case, True, "replayed render case")
+        run(ctx)
     elif kind == "pipeline":
         res = pipeline_check(case)
         ctx.count(case, True, "replayed pipeline")
